@@ -12,7 +12,7 @@ LEAN_NOTE = "trusted: Lean 4.33 kernel (axioms at most propext, Classical.choice
 CLAIMS = {
     "C01": dict(
         engine="codec",
-        text="Lean 4 theorems over the executable codec model, for ALL messages (any frame count/length < 2^64): the bytes written parse under an independent strict RFC-23 grammar to exactly the frames sent, the library decoder returns the identical message, greeting/READY well-formed. Tie: the model's encode/decode and the real ZmqCodec are run on the same messages (exhaustive length grids x 1..3 frames, seeded messages, READY for 9 types x 6 identities) and must agree byte for byte; greeting and READY tables are regenerated from the code each run and proved equal to the model by decide.",
+        text="Lean 4 theorems over the executable codec model, for ALL messages (any frame count/length < 2^64): the bytes written parse under an independent strict RFC-23 grammar to exactly the frames sent, the library decoder returns the identical message, greeting/READY well-formed. Tie: the model's encode/decode and the real ZmqCodec are run on the same messages (exhaustive length grids x 1..3 frames, seeded messages, READY for 9 types x 6 identities) and must agree byte for byte; greeting and READY tables are regenerated from the code each run and proved equal to the model by decide. SOCKET level: each of the 9 socket types with configured identities of 0..255 bytes accepts a raw peer over a scripted pipe; the greeting + READY written by the real handshake are parsed by a python RFC-23 reference (Socket-Type = the type, Identity iff configured).",
         note=LEAN_NOTE + "BytesMut put/extend modelled as list append; bodies > 48 bytes compared by length + FNV-64",
         technique="Lean 4 proof (round-trip law against an independent RFC-23 grammar) + differential correspondence + regenerated tables",
     ),
@@ -24,7 +24,7 @@ CLAIMS = {
     ),
     "C03": dict(
         engine="codec",
-        text="Lean 4 theorems over a decoder model that carries the abort conditions of every bytes-crate primitive the code calls: no byte stream in any state reaches a panic site, retained bytes <= received bytes, a declared length stores nothing; SocketType::compatible total over the table regenerated from the code (decide). PARTIAL w.r.t. the runtime: allocator and stack are observed, not modelled — hostile streams (exhaustive alphabet, length-field/truncation mutations, 20 000 MORE frames, junk greetings, random) run against the real decoder on a 256 KiB-stack thread with a counting allocator, crashes isolated by process bisection; and floods of items a socket's recv loop ignores (6 000 / 25 000 commands, bogus subscriptions, non-matching topics in ONE read) through real sockets of all 8 reading types, polled on a 2 MiB-stack thread, followed by a valid message and a healthy peer's message.",
+        text="Lean 4 theorems over a decoder model that carries the abort conditions of every bytes-crate primitive the code calls: no byte stream in any state reaches a panic site, retained bytes <= received bytes, a declared length stores nothing; SocketType::compatible total over the table regenerated from the code (decide). PARTIAL w.r.t. the runtime: allocator and stack are observed, not modelled — hostile streams (exhaustive alphabet, length-field/truncation mutations, 20 000 MORE frames, junk greetings, random) run against the real decoder on a 256 KiB-stack thread with a counting allocator, crashes isolated by process bisection; and floods of items a socket's recv loop ignores (6 000 / 25 000 commands, bogus subscriptions, non-matching topics in ONE read) through real sockets of all 8 reading types, polled on a 2 MiB-stack thread, followed by a valid message and a healthy peer's message. Peer-state families: state built from a peer's WELL-FORMED bytes (subscriptions of 0..1000 bytes, plain / cancelled / multi-frame / garbage; ROUTER identities of every legal length; REP envelopes of up to 40 frames) and then used by the application's own send/reply must not panic.",
         note=LEAN_NOTE + "bytes crate panic conditions as modelled in Model/Basic.lean; heap budget 64 x bytes received + 32 KiB",
         technique="Lean 4 proof (explicit panic outcomes, retained-bytes invariant) + hostile-input correspondence with heap/stack observation",
     ),
@@ -36,13 +36,13 @@ CLAIMS = {
     ),
     "C05": dict(
         engine="fq",
-        text="Lean 4 invariants over the micro-step model of the fair queue (lock sections A/B/C, insert/remove/arrive/close landing anywhere, incl. inside the unlocked window), proved preserved by every step and hence true after ANY finite schedule with any number of peers: conservation (given = delivered ++ in-flight ++ still queued), per-peer prefix order, no duplicates, at most one stream checked out. Tie: the real FairQueue over scripted streams replays the SAME schedule as the model and must give the same result for every poll (exhaustive op sequences for 2/3 peers, every single window-action placement, seeded random); Spec oracle on the implementation's trace (prefix, no-dup, completeness after drain). Socket level: seeded random schedules of real PULL/SUB/DEALER/ROUTER/REP/XPUB sockets predicted line by line by the World model, and `streams` cases judged by the Spec itself (per peer, delivered = complete messages put on the wire; empty frames anywhere; clean and mid-message EOF). The budget op `exhaust` and the waker op `setwaker` (see C06) are part of the schedules.",
+        text="Lean 4 invariants over the micro-step model of the fair queue (lock sections A/B/C, insert/remove/arrive/close landing anywhere, incl. inside the unlocked window), proved preserved by every step and hence true after ANY finite schedule with any number of peers: conservation (given = delivered ++ in-flight ++ still queued), per-peer prefix order, no duplicates, at most one stream checked out. Tie: the real FairQueue over scripted streams replays the SAME schedule as the model and must give the same result for every poll (exhaustive op sequences for 2/3 peers, every single window-action placement, seeded random); Spec oracle on the implementation's trace (prefix, no-dup, completeness after drain). Socket level: seeded random schedules of real PULL/SUB/DEALER/ROUTER/REP/XPUB sockets predicted line by line by the World model, and `streams` cases judged by the Spec itself (per peer, delivered = complete messages put on the wire; empty frames anywhere; clean and mid-message EOF). The budget op `exhaust` and the waker op `setwaker` (see C06) are part of the schedules. SOCKET-LEVEL THEOREMS (Lemmas/WorldRecv, WorldHist): one poll of the World model's framed reader / fair queue / recv loop is related to the connections' BYTE STREAMS (C02's run): the item handed out is the first item of exactly one connection's remaining stream, no other connection is touched, at most one message per poll and exactly one iff recv returns it (or REP rejects it); and for EVERY history of polls and arriving bytes the complete messages of a connection's whole byte stream are exactly the messages consumed from it, in order, followed by those still waiting (C05_world_exactly_once / _gone_prefix). Family reconnect-parked: a peer connects again under a still-registered identity while a recv is parked.",
         note=LEAN_NOTE + "std BinaryHeap/HashMap, parking_lot::Mutex as atomic sections; true parallel data races not modelled; distinct keys",
-        technique="Lean 4 proof (invariant by induction over all interleavings) + exact-schedule differential correspondence",
+        technique="Lean 4 proof (invariant by induction over all interleavings; refinement of the socket-level receive path to the connections' byte streams, for all histories) + exact-schedule differential correspondence",
     ),
     "C06": dict(
         engine="fq",
-        text="Lean 4 theorems over the same fair-queue model, for all schedules: I1 (parked & un-notified => heap empty & waker published), I2 (available => exactly one event), wake-up on arrive/close/insert, progress (a polled recv returns Ready within 3*|heap| sections whenever something is available), bounded bypass (while i is owed a delivery every other peer is served at most once; potential argument over tickets); every poll_next call RETURNS whatever the executor's cooperative budget does (a variant that decreases with every section; the loop of the pinned tree provably did not — finding D17, a recv() livelock under tokio's coop budget, repaired by a fix: commit); the wake-up goes to the waker of the LATEST call (C06_wake_latest). PARTIAL: the bypass bound assumes the kernel-socket waker discipline; real-time liveness of the reactor is outside the model. Tie: wake counts, WHICH waker was woken, and exact delivery order compared per op with the real FairQueue on exhaustive and seeded schedules incl. budget exhaustion (every stream poll wakes itself and returns Pending; LIVELOCK reported after 20 000 stream polls in one call) and polls made with different wakers; Spec oracle for wake (count and identity), completeness and bypass on the implementation's trace.",
+        text="Lean 4 theorems over the same fair-queue model, for all schedules: I1 (parked & un-notified => heap empty & waker published), I2 (available => exactly one event), wake-up on arrive/close/insert, progress (a polled recv returns Ready within 3*|heap| sections whenever something is available), bounded bypass (while i is owed a delivery every other peer is served at most once; potential argument over tickets); every poll_next call RETURNS whatever the executor's cooperative budget does (a variant that decreases with every section; the loop of the pinned tree provably did not — finding D17, a recv() livelock under tokio's coop budget, repaired by a fix: commit); the wake-up goes to the waker of the LATEST call (C06_wake_latest). PARTIAL: the bypass bound assumes the kernel-socket waker discipline; real-time liveness of the reactor is outside the model. Tie: wake counts, WHICH waker was woken, and exact delivery order compared per op with the real FairQueue on exhaustive and seeded schedules incl. budget exhaustion (every stream poll wakes itself and returns Pending; LIVELOCK reported after 20 000 stream polls in one call) and polls made with different wakers; Spec oracle for wake (count and identity), completeness and bypass on the implementation's trace. Socket level: C06_world_reinsert_queued (registering under a key that is still registered always queues an event) and C06_world_progress (an event queued for a connection with a complete item => poll_next over the framed readers does not return Pending); family reconnect-parked on real sockets.",
         note=LEAN_NOTE + "waker discipline hypothesis (one armed waker per stream, consumed on firing) for the bypass bound; OS/tokio timing not modelled",
         technique="Lean 4 proof (invariants I1/I2/one-token, progress by strong induction, bounded bypass by ticket potential) + exact-schedule differential correspondence",
     ),
@@ -60,7 +60,7 @@ CLAIMS = {
     ),
     "C14": dict(
         engine="world",
-        text="Lean 4: in the World model the recv future of every fair-queue socket is stateless (a pending poll leaves exactly the freshly-issued future), REQ keeps the request marker in the socket while its recv is pending, and at fair-queue level abandon+reissue is a spurious poll, covered by the conservation invariant for all schedules. Tie (the substance): real recv futures of all 7 socket types polled k=1..3 times and DROPPED at every byte-arrival position of a two-message stream, repeated, then drained — the model must predict every line; oracle: drained sequence = messages on the wire; REQ refuses the second send and returns the first reply; a later recv that goes Pending first is WOKEN by its own waker when the bytes arrive (every future has its own waker; op `woken`); REP answers an outstanding request behind its envelope after further recvs were abandoned.",
+        text="Lean 4: in the World model the recv future of every fair-queue socket is stateless (a pending poll leaves exactly the freshly-issued future), REQ keeps the request marker in the socket while its recv is pending, and at fair-queue level abandon+reissue is a spurious poll, covered by the conservation invariant for all schedules. Tie (the substance): real recv futures of all 7 socket types polled k=1..3 times and DROPPED at every byte-arrival position of a two-message stream, repeated, then drained — the model must predict every line; oracle: drained sequence = messages on the wire; REQ refuses the second send and returns the first reply; a later recv that goes Pending first is WOKEN by its own waker when the bytes arrive (every future has its own waker; op `woken`); REP answers an outstanding request behind its envelope after further recvs were abandoned. Socket-level theorem C14_world_any_poll_is_a_history_step: a poll of ANY recv future (fresh, re-polled, successor of an abandoned one) is a step of the histories over which C05_world_exactly_once holds — abandoning recv calls at any suspension point loses, duplicates and reorders nothing.",
         note=LEAN_NOTE + "futures are dropped between polls only",
         technique="Lean 4 proof (stateless-future lemmas, REQ marker invariant) + exhaustive cancellation-point correspondence",
     ),
@@ -90,25 +90,25 @@ CLAIMS = {
     ),
     "C13": dict(
         engine="world",
-        text="Lean 4: for ALL histories of subscribe/unsubscribe/atomic join, every peer's wire folded with the publisher's semantics (C11) equals the socket's set (invariant by induction); failure isolation (each peer's update is independent); the SPLIT join is modelled too and the full property is proved FALSE on a concrete history (C13_race_witness) with the partial theorem excluding exactly that window — a recorded known finding (D10). Tie: real SUB with scripted publishers, all histories to length 4/5 x join at every position, failing peer first, failing join, the split join reached deterministically by stalling the new pipe; python oracle folds every peer's wire.",
+        text="Lean 4: for ALL histories of subscribe/unsubscribe/atomic join, every peer's wire folded with the publisher's semantics (C11) equals the socket's set (invariant by induction); failure isolation (each peer's update is independent); the SPLIT join is modelled too and the full property is proved FALSE on a concrete history (C13_race_witness) with the partial theorem excluding exactly that window — a recorded known finding (D10). Tie: real SUB with scripted publishers, all histories to length 4/5 x join at every position, failing peer first, failing join, the split join reached deterministically by stalling the new pipe; python oracle folds every peer's wire. Back-pressure family: every history of length <= 3 x every call x each of two peers accepting only 0..2 bytes during that call — the call waits, the peer becomes writable, the call completes, and every peer (the slow one included) and a late joiner have been told.",
         note=LEAN_NOTE + "HashSet/HashMap iteration orders abstracted (compared as multisets / at quiescent points)",
         technique="Lean 4 proof (invariant over histories; negation witness for the join race) + exhaustive history x join-point correspondence",
     ),
     "C15": dict(
         engine="world",
-        text="Lean 4: abstract select!-loop model with the choice among ready sides as a free parameter — for EVERY interleaving of arrivals and EVERY choice sequence: sent-on-the-other-side ++ still-queued = everything that arrived, per direction (verbatim, once, in order), capture gets one copy per forwarded message, the losing side's message stays queued; chain clause via C07_chain. Tie: the real proxy(ROUTER, DEALER, capture PUSH/PUB/none) future stepped one poll at a time over scripted clients/workers/sink, exhaustive 3-event arrival patterns incl. both sides ready in one poll, 1..2 clients x 1..2 workers x payload shapes, seeded schedules; the World model (proxyPoll) predicts every wire; oracle: forwarded = received per direction, per-source order, capture copies, replies reach the client named in their envelope.",
+        text="Lean 4: abstract select!-loop model with the choice among ready sides as a free parameter — for EVERY interleaving of arrivals and EVERY choice sequence: sent-on-the-other-side ++ still-queued = everything that arrived, per direction (verbatim, once, in order), capture gets one copy per forwarded message, the losing side's message stays queued; chain clause via C07_chain. Tie: the real proxy(ROUTER, DEALER, capture PUSH/PUB/none) future stepped one poll at a time over scripted clients/workers/sink, exhaustive 3-event arrival patterns incl. both sides ready in one poll, 1..2 clients x 1..2 workers x payload shapes, seeded schedules; the World model (proxyPoll) predicts every wire; oracle: forwarded = received per direction, per-source order, capture copies, replies reach the client named in their envelope. Family chain-reconnect: a client connects again under its configured identity while its old connection is still registered (open, or closed but not yet polled) and makes a request — answered on the NEW connection only.",
         note=LEAN_NOTE + "futures::select! as a free choice among ready branches; schedules where a send blocks while both sides are ready are not compared",
         technique="Lean 4 proof (invariant for all choice sequences) + one-poll-at-a-time correspondence of the real proxy future",
     ),
     "C16": dict(
         engine="world",
-        text="Lean 4 on the World model's peer_disconnected (as coded per backend) and fair-queue poll: forgotten (no table entry a later send consults), isolated (no other peer's entry changes), write half released (every socket type); an orderly EOF observed by the fair-queue poll forgets the peer whatever else that poll goes on to do (C16_eof_forgets) and releases both halves; a failed write in REQ/ROUTER/REP send and an ended/failed reply stream in REQ recv forget the peer. (On the pinned tree the last three were FALSE — proved as negations, recorded as findings D12/D13, then repaired by two fix: commits; every (type, event) pair is now required to hold.) PARTIAL: descriptor release observed via the pipe halves' Drop flags, not modelled. Tie: 9 socket types x every cut position of the victim's stream (each handshake stage, header, 8-byte length, body, between frames, between messages) x {EOF, read error, write error, protocol error} with bystanders; recv error count / no spin, late sends, halves.",
+        text="Lean 4 on the World model's peer_disconnected (as coded per backend) and fair-queue poll: forgotten (no table entry a later send consults), isolated (no other peer's entry changes), write half released (every socket type); an orderly EOF observed by the fair-queue poll forgets the peer whatever else that poll goes on to do (C16_eof_forgets) and releases both halves; a failed write in REQ/ROUTER/REP send and an ended/failed reply stream in REQ recv forget the peer. (On the pinned tree the last three were FALSE — proved as negations, recorded as findings D12/D13, then repaired by two fix: commits; every (type, event) pair is now required to hold.) PARTIAL: descriptor release observed via the pipe halves' Drop flags, not modelled. Tie: 9 socket types x every cut position of the victim's stream (each handshake stage, header, 8-byte length, body, between frames, between messages) x {EOF, read error, write error, protocol error} with bystanders; recv error count / no spin, late sends, halves. Family publisher-write-fault: PUB/XPUB with a subscriber whose writes fail (ConnectionReset, BrokenPipe, TimedOut, ConnectionAborted) with and without a backlog at its high-water mark — every later publish returns ok at once and every other subscriber receives every message.",
         note=LEAN_NOTE + "FramedRead2 EOF handling modelled; OS descriptor release observed not modelled",
         technique="Lean 4 proof (per-event theorems) + fault-position x event correspondence",
     ),
     "C17": dict(
         engine="world",
-        text="Lean 4: ownership graph with reference-count semantics (Freed = inductive least fixpoint): with the repaired fair queue, dropping/closing the socket frees every registered connection whatever wakers were armed (dropped_closes) and always frees the accept tasks; the NEGATION for the queue as it was (an armed StreamWaker closes a strong cycle through the transport — reproduced on the real code, repaired by a fix: commit); with both repairs EVERY connection — registered or still in its handshake — is freed (C17_all_closed); the negation for detached handshake tasks (a stalled peer's connection survived close/drop: finding D14, repaired by a fix: commit). World model: Drop/close() empty every table. PARTIAL: OS sockets, tokio scheduling and 'shortly afterwards' are observed, not modelled. Tie: 9 socket types x all 2^5 history prefixes {recv pending, recv delivered, send, peer EOF, pending handshake} x {drop, close()} over scripted pipes whose halves record their own Drop, compared half by half; real listeners (net engine): type x transport x {bound, accepted, traffic, pending handshake, CONNECTED OUT through connect()} x {close, drop}, and close/drop issued while ANOTHER THREAD holds the fair queue's lock (a slow waker woken by a registering handshake task / by arriving data).",
+        text="Lean 4: ownership graph with reference-count semantics (Freed = inductive least fixpoint): with the repaired fair queue, dropping/closing the socket frees every registered connection whatever wakers were armed (dropped_closes) and always frees the accept tasks; the NEGATION for the queue as it was (an armed StreamWaker closes a strong cycle through the transport — reproduced on the real code, repaired by a fix: commit); with both repairs EVERY connection — registered or still in its handshake — is freed (C17_all_closed); the negation for detached handshake tasks (a stalled peer's connection survived close/drop: finding D14, repaired by a fix: commit). World model: Drop/close() empty every table. PARTIAL: OS sockets, tokio scheduling and 'shortly afterwards' are observed, not modelled. Tie: 9 socket types x all 2^5 history prefixes {recv pending, recv delivered, send, peer EOF, pending handshake} x {drop, close()} over scripted pipes whose halves record their own Drop, compared half by half; real listeners (net engine): type x transport x {bound, accepted, traffic, pending handshake, CONNECTED OUT through connect()} x {close, drop}, and close/drop issued while ANOTHER THREAD holds the fair queue's lock (a slow waker woken by a registering handshake task / by arriving data). Net family registration-pending: a SUB socket with a subscription set larger than the transport buffers and a peer that completed the handshake but does not read (state: handshake done, registration pending) — after close()/drop the peer reaches end-of-stream before reading more than can have been in flight; after close() RETURNS the FIRST fresh connection attempt must be refused (single probe, no polling).",
         note=LEAN_NOTE + "Arc/Drop semantics as modelled by the ownership graph; listeners/OS observed by the net engine where built",
         technique="Lean 4 proof (inductive Freed over the ownership graph; cycle-leak negation) + exhaustive history-prefix correspondence on pipe Drop flags",
     ),
